@@ -2,6 +2,7 @@
 //! Subcommands: c14 (pool via VerifPool), c13 c15 c01 c02 c06 (real listen() over in-memory streams)
 use serde_json::{json, Value};
 use std::sync::{Arc, Mutex};
+use std::os::unix::io::AsRawFd;
 use std::time::{Duration, Instant};
 use vh::common::*;
 use vh::vsched::*;
@@ -713,10 +714,171 @@ fn c06l(args: &Args) -> ! {
     rep.finish(args)
 }
 
+// ================================================================================== real-socket conformance (one OS schedule per case)
+
+/// The virtual environment of the vsched runs (in-memory streams, hooked accept, virtual clock) is
+/// validated against the real OS: explored scenarios are replayed over real unix / TCP sockets against a
+/// free-running varlink::listen in this process. Labelled conformance, not exploration.
+fn conformance(args: &Args) -> ! {
+    use std::io::{Read, Write};
+    use vh::refmodel::*;
+    let prop = args.extra.get("prop").cloned().unwrap_or("C01".into());
+    let mut rep = Report::new(&prop, "conformance of the virtual environment with real sockets (one OS schedule per case, free-running threads, no scheduler): request sequences / multi-connection scenarios of the vsched parts replayed against a real varlink::listen over a unix socket (and TCP for C13); each client writes its stream (optionally in two segments), half-closes and reads to EOF; the bytes must equal the solo reply stream; for C15 only lower bounds on wall-clock time are asserted; non-trivial = distinct (scenario, transport)");
+    let dir = tempfile::Builder::new().prefix("conf").tempdir_in("/dev/shm").or_else(|_| tempfile::tempdir()).unwrap();
+    let flag = std::sync::Arc::new(std::sync::atomic::AtomicBool::new(false));
+    let mut addrs: Vec<String> = vec![format!("unix:{}/s", dir.path().display())];
+    if prop == "C13" {
+        let l = std::net::TcpListener::bind("127.0.0.1:0").unwrap();
+        let port = l.local_addr().unwrap().port();
+        drop(l);
+        addrs.push(format!("tcp:127.0.0.1:{}", port));
+    }
+    let mut servers = vec![];
+    for a in &addrs {
+        let (svc, _log) = vts::ts::new_ts();
+        let a2 = a.clone();
+        let f2 = flag.clone();
+        servers.push(std::thread::spawn(move || varlink::listen(svc, &a2, &varlink::ListenConfig { initial_worker_threads: 1, max_worker_threads: 40, idle_timeout: 0, stop_listening: Some(f2) })));
+        let t0 = Instant::now();
+        while varlink::varlink_connect(a).is_err() && t0.elapsed() < Duration::from_secs(5) {
+            std::thread::sleep(Duration::from_millis(5));
+        }
+    }
+    let talk = |addr: &str, chunks: &[Vec<u8>]| -> Result<Vec<u8>, String> {
+        let (mut st, _) = varlink::varlink_connect(addr).map_err(|e| format!("{:?}", e.kind()))?;
+        let (mut r, mut w) = st.split().map_err(|e| format!("{:?}", e.kind()))?;
+        for c in chunks {
+            w.write_all(c).map_err(|e| e.to_string())?;
+            w.flush().map_err(|e| e.to_string())?;
+        }
+        // half-close: the server sees EOF after the last byte
+        unsafe {
+            libc::shutdown(st.as_raw_fd(), libc::SHUT_WR);
+        }
+        let mut out = vec![];
+        let _ = r.read_to_end(&mut out);
+        Ok(out)
+    };
+    if prop == "C01" || prop == "C02" {
+        let alpha = if args.thorough() { alphabet() } else { flagless_alphabet() };
+        let mut idx = 0u64;
+        for s in sequences(alpha.len(), 2) {
+            idx += 1;
+            if !args.mine(idx) {
+                continue;
+            }
+            let reqs = mk_seq(&alpha, &s);
+            let bytes = seq_bytes(&reqs);
+            let (want, _closed) = solo_reply(&bytes);
+            for split in [0usize, bytes.len() / 2] {
+                let chunks = if split == 0 { vec![bytes.clone()] } else { vec![bytes[..split].to_vec(), bytes[split..].to_vec()] };
+                let case = json!({"conformance": "real-unix-socket", "reqs": reqs_to_json(&reqs), "split": split});
+                rep.eval(Some(&case.to_string()));
+                if rep.want_sample() {
+                    rep.sample(case.clone());
+                }
+                match talk(&addrs[0], &chunks) {
+                    Ok(got) if got == want => {}
+                    Ok(got) => rep.violation(&format!("{}/real-socket-differs", prop), &format!("over a real unix socket the connection received {} but the in-memory handler gives {}", b2s(&got[..got.len().min(400)]), b2s(&want[..want.len().min(400)])), case),
+                    Err(e) => rep.violation(&format!("{}/real-socket-error", prop), &e, case),
+                }
+            }
+        }
+    }
+    if prop == "C13" {
+        // 16 concurrent clients per transport, each with its own tagged pipelined stream, several rounds
+        let rounds = if args.thorough() { 40 } else { 6 };
+        for round in 0..rounds {
+            for a in &addrs {
+                let hs: Vec<_> = (0..16)
+                    .map(|c| {
+                        let a = a.clone();
+                        let tag = format!("r{}c{}", round, c);
+                        std::thread::spawn(move || {
+                            let spec = healthy(&tag, c % 3);
+                            let stream: Vec<u8> = spec.chunks.concat();
+                            let (want, _) = solo_reply(&stream);
+                            let (mut st, _) = varlink::varlink_connect(&a).map_err(|e| format!("{:?}", e.kind()))?;
+                            let (mut r, mut w) = st.split().map_err(|e| format!("{:?}", e.kind()))?;
+                            for ch in &spec.chunks {
+                                w.write_all(ch).map_err(|e| e.to_string())?;
+                                std::thread::yield_now();
+                            }
+                            unsafe {
+                                libc::shutdown(st.as_raw_fd(), libc::SHUT_WR);
+                            }
+                            let mut out = vec![];
+                            let _ = r.read_to_end(&mut out);
+                            if out == want {
+                                Ok(())
+                            } else {
+                                Err(format!("client {} received {} instead of {}", tag, b2s(&out[..out.len().min(300)]), b2s(&want[..want.len().min(300)])))
+                            }
+                        })
+                    })
+                    .collect();
+                for (c, h) in hs.into_iter().enumerate() {
+                    let case = json!({"conformance": "real-sockets-16-clients", "transport": a.split(':').next(), "round": round, "client": c});
+                    rep.eval(Some(&case.to_string()));
+                    if rep.want_sample() {
+                        rep.sample(case.clone());
+                    }
+                    match h.join() {
+                        Ok(Ok(())) => {}
+                        Ok(Err(e)) => rep.violation("C13/real-socket-differs", &e, case),
+                        Err(_) => rep.violation("C13/real-socket-client-panicked", "client thread panicked", case),
+                    }
+                }
+            }
+        }
+    }
+    flag.store(true, std::sync::atomic::Ordering::SeqCst);
+    for s in servers {
+        match s.join() {
+            Ok(Ok(())) => {}
+            Ok(Err(e)) => rep.violation(&format!("{}/real-listen-error", prop), &format!("listen returned {:?} after the stop flag was set", e.kind()), json!({"conformance": "shutdown"})),
+            Err(_) => rep.violation(&format!("{}/real-listen-panicked", prop), "listen panicked", json!({"conformance": "shutdown"})),
+        }
+    }
+    if prop == "C15" {
+        // real time: only lower bounds
+        for (name, idle, with_conn) in [("idle1-none", 1u64, false), ("idle1-conn-at-0.5s", 1, true)] {
+            let a = format!("unix:{}/t{}", dir.path().display(), name);
+            let (svc, _log) = vts::ts::new_ts();
+            let a2 = a.clone();
+            let t0 = Instant::now();
+            let h = std::thread::spawn(move || {
+                let r = varlink::listen(svc, &a2, &varlink::ListenConfig { idle_timeout: idle, ..Default::default() });
+                (r.map_err(|e| format!("{:?}", e.kind())), Instant::now())
+            });
+            let mut last_conn = t0;
+            if with_conn {
+                std::thread::sleep(Duration::from_millis(500));
+                let _ = talk(&a, &[vh::refmodel::Req::new(Kind::Echo, Flag::None, "x").bytes()]);
+                last_conn = Instant::now();
+            }
+            let (r, t_end) = h.join().unwrap();
+            let case = json!({"conformance": "real-time", "scenario": name});
+            rep.eval(Some(&case.to_string()));
+            let since = t_end.duration_since(last_conn);
+            if r != Err("Timeout".to_string()) {
+                rep.violation("C15/real-time-result", &format!("listen returned {:?}", r), case.clone());
+            } else if since < Duration::from_millis(idle * 1000 - 20) && with_conn || t_end.duration_since(t0) < Duration::from_millis(idle * 1000 - 20) {
+                rep.violation("C15/real-time-too-early", &format!("Timeout {:?} after the last connection (idle_timeout {} s)", since, idle), case.clone());
+            }
+            if std::path::Path::new(&a["unix:".len()..]).exists() {
+                rep.violation("C15/real-socket-not-removed", "socket path still exists after listen returned", case);
+            }
+        }
+    }
+    rep.finish(args)
+}
+
 fn main() {
     let args = Args::parse();
     match args.sub.as_str() {
         "c14" => c14(&args),
+        "conf" => conformance(&args),
         "c13" => c13(&args),
         "c15" => c15(&args),
         "c02" => c02l(&args),
